@@ -2,7 +2,9 @@
 
    STATUS.  Model.step is the step function of /repo HEAD: repaired session logic ([vrep v = true]: onLCPDown resets,
    empty request ids ignored, and — since c6c869c — a rejected or failed authentication tears the session down inside
-   the same answer).  For it, over ALL event lists from the initial state, either FSM table, any pool size:
+   the same answer; [vtd v = true], e9950ea: the session ends when LCP leaves Opened on an authenticated link;
+   [vhl v = true], 0709f1b: an answer matched before a teardown is dropped under the session lock) = [mkV true rfc].
+   For it, over ALL event lists from the initial state, either FSM table, any pool size:
      PPPoE  C03_gate, C03_unaccepted_inert, C03_reject_clean (+ _step), C03_renegotiation_reauth (+ _events),
             C03_lcp_down_marked and C03_alloc_needs_accept (the monitor's ghost markers tied to compared observables)
      IPoE   C03_ipoe_gate, C03_ipoe_reject_clean, C03_ipoe_unapproved_holds_nothing
@@ -138,7 +140,7 @@ Print Assumptions C03_reject_clean_step.
 Definition ev_reauth := ev_pending ++ [EvAAA 1 AAcc; EvFrame 0 (FrLcp (FCreq QGood)); EvFrame 0 (FrLcp (FCack true));
                                        EvFrame 0 FrChapResp].
 Example C03_reject_clean_nonvacuous :
-  let v := mkV3 true false false in   (* /repo HEAD: without the link-end teardown a lease can coexist with an outstanding request *)
+  let v := mkV3 true false false in   (* before e9950ea: without the link-end teardown a lease can coexist with an outstanding request *)
   let st := fst (run v (init 2) ev_reauth) in
   (* accepted, renegotiated, second request outstanding, lease held: the hypotheses are met ... *)
   find_idx (pend_matches v 2) (sl st) 0 = Some 0 /\ option_map lease (nth_error (sl st) 0) = Some 1 /\ free st = 1 /\
@@ -151,7 +153,7 @@ Example C03_reject_clean_nonvacuous :
 Proof. intros v st. repeat split; timeout 20 (vm_compute; reflexivity). Qed.
 Print Assumptions C03_reject_clean_nonvacuous.
 
-(* C03_link_end_teardown ([vtd v = true] = fixes/C03_pppoe_lcp_down_teardown.patch; /repo HEAD is [vtd = false], known finding
+(* C03_link_end_teardown ([vtd v = true] = /repo HEAD since e9950ea; [vtd = false] = the code before it, fixed finding
    pppoe-reneg-keeps-dataplane).  From EVERY state: a frame that makes LCP leave Opened (marker GLcpDown — emitted whenever
    the compared LCP state leaves Opened, C03_lcp_down_marked) while the session is in Network/Open removes the session in
    the same step (terminate: lease released, dataplane session deleted, Released published); by C03_reject_clean's
@@ -171,7 +173,7 @@ Example C03_link_end_teardown_nonvacuous :
   free (fst (run (mkV true false) (init 2) evs)) = 1 /\
   free (fst (run (mkV true false) (init 2) (evs ++ [e]))) = 2 /\
   option_map live (nth_error (sl (fst (run (mkV true false) (init 2) (evs ++ [e])))) 0) = Some false /\
-  (* ... on /repo HEAD it stays, in Establish, with its lease (and its dataplane session) *)
+  (* ... before e9950ea it stayed, in Establish, with its lease (and its dataplane session) *)
   free (fst (run (mkV3 true false false) (init 2) (evs ++ [e]))) = 1 /\
   option_map (fun s => (live s, ph s, alloc_pool s)) (nth_error (sl (fst (run (mkV3 true false false) (init 2) (evs ++ [e])))) 0)
     = Some (true, PEstablish, true).
@@ -183,7 +185,7 @@ Print Assumptions C03_link_end_teardown_nonvacuous.
    there), C03_unaccepted_inert says a never-accepted session has taken none ([holds_nothing] includes them), and
    C03_reject_clean(_step) gives back what terminate releases ([add6]).  What is NOT proved: that on the repaired code a
    torn-down session never keeps an IPv6 lease ([leaks] = false) — on both sides a monitor checks it at every teardown
-   (harness: the registry holds nothing for the session id; driver: Model.leaks), see notes.  On /repo HEAD it is false: *)
+   (harness: the registry holds nothing for the session id; driver: Model.leaks), see notes.  Before e9950ea it was false: *)
 Definition ev_open6 := ev_pending ++ [EvAAA 1 AAcc; EvFrame 0 (FrIp6cp (FCreq QGood)); EvFrame 0 (FrIp6cp (FCack true))].
 Example C03_ipv6_leases_nonvacuous :
   let v := mkV true false in
@@ -202,7 +204,7 @@ Example C03_ipv6_leases_nonvacuous :
   free6 (fst (run v (init3 2 0 16) (ev_open6 ++ [EvFrame 0 FrDh6Req; EvPadt 0]))) = (0, 16).
 Proof. intros v st. repeat match goal with |- _ /\ _ => split end; timeout 20 (vm_compute; reflexivity). Qed.
 Print Assumptions C03_ipv6_leases_nonvacuous.
-(* /repo HEAD (no link-end teardown): the re-authentication builds a new AllocCtx that does not know the session's
+(* before e9950ea (no link-end teardown): the re-authentication built a new AllocCtx that does not know the session's
    IA_NA address, the next DHCPv6 REQUEST takes a second one and rebinds, and the teardown returns only that one *)
 Example C03_ipv6_reneg_leak_refuted :
   let evs := ev_open6 ++ [EvFrame 0 (FrLcp (FCreq QGood)); EvFrame 0 (FrLcp (FCack true)); EvFrame 0 FrChapResp; EvAAA 2 AAcc;
@@ -215,12 +217,12 @@ Proof. intros evs. repeat match goal with |- _ /\ _ => split end; timeout 20 (vm
 Print Assumptions C03_ipv6_reneg_leak_refuted.
 
 (* Held answers ([EvAAAHeld i k a]: the answer was matched to slot i's session before the previous event was handled and
-   gets the session lock only now; [vhl v = true] = fixes/C03_pppoe_aaa_answer_after_teardown.patch, /repo HEAD is
-   [vhl = false], known finding pppoe-aaa-answer-after-teardown).  C03_gate, C03_unaccepted_inert and
+   gets the session lock only now; [vhl v = true] = /repo HEAD since 0709f1b; [vhl = false] = the code
+   before it, fixed finding pppoe-aaa-answer-after-teardown).  C03_gate, C03_unaccepted_inert and
    C03_renegotiation_reauth(_events) quantify over histories that contain held answers and need [vhl].  Without it: *)
 Example C03_held_answer_refuted :
   let evs := ev_pending ++ [EvPadt 0; EvAAAHeld 0 1 AAcc] in
-  (* /repo HEAD: the accept is applied to the session PADT has just torn down: service outputs, leases nobody returns *)
+  (* before 0709f1b: the accept is applied to the session PADT has just torn down: service outputs, leases nobody returns *)
   mon_run 0 (snd (run (mkV3 true false false) (init3 2 16 16) evs)) mon0 = None /\
   free (fst (run (mkV3 true false false) (init3 2 16 16) evs)) = 1 /\
   free6 (fst (run (mkV3 true false false) (init3 2 16 16) evs)) = (15, 16) /\
@@ -262,7 +264,7 @@ Theorem C03_renegotiation_reauth_events : forall v pool p6 ppd evs1 e evs2 i, vr
 Proof. exact GateMain.reauth_events. Qed.
 Print Assumptions C03_renegotiation_reauth_events.
 Example C03_renegotiation_reauth_nonvacuous :
-  let v := mkV3 true false false in   (* /repo HEAD; with [vtd] the renegotiation of an open session ends it, below *)
+  let v := mkV3 true false false in   (* the code before e9950ea; with [vtd] the renegotiation of an open session ends it, below *)
   let evs1 := ev_pending ++ [EvAAA 1 AAcc; EvFrame 0 (FrIpcp (FCreq QGood)); EvFrame 0 (FrIpcp (FCack true))] in
   let e := EvFrame 0 (FrLcp (FCreq QGood)) in
   let st1 := fst (run v (init 2) (evs1 ++ [e])) in
